@@ -523,6 +523,10 @@ class Executor(Generic[TContext]):
         except GraphQLError as error:
             self.collected_errors.add(error, None)
             return self.finish(self.build_response(None))
+        except Exception:
+            # e.g. the abort reason raised while executing root fields serially
+            self.run_async_work_finished_hook()
+            raise
 
         return self.finish(self.build_response(data))
 
